@@ -266,6 +266,15 @@ def inline_call(fn, n, depth=0):
     if len(args) < len(callee.params) or not stmts:
         return None
     mapping = {p["did"]: a for p, a in zip(callee.params, args)}
+    return stmts_as_expr(stmts, mapping)
+
+
+def stmts_as_expr(stmts, mapping=None):
+    """the value returned by a statement list of the form  decl* (if (c) return e;)* return e;  as one expression
+    (c ? e : ...), locals replaced by their initialisers; None if the list has another shape"""
+    from .ir import kids as _kids
+    mapping = dict(mapping or {})
+    stmts = [s for s in stmts if s is not None]
     # leading declarations of locals (values or references) stand for their initialisers
     while stmts and stmts[0]["k"] == "DeclStmt":
         for v in _kids(stmts[0]):
